@@ -834,6 +834,26 @@ func (fi *FnIntervals) lenItv(v ssa.Value, b *ssa.BasicBlock) Itv {
 				return Itv{big.NewInt(0), a.Hi}
 			case "slices.Clone":
 				return fi.lenItv(x.Call.Args[0], b)
+			case "slices.Delete":
+				// removes s[i:j] (panics unless 0 <= i <= j <= len(s)): len(s) - (j - i)
+				if len(x.Call.Args) == 3 {
+					a := fi.lenItv(x.Call.Args[0], b)
+					i, j := fi.At(x.Call.Args[1], b), fi.At(x.Call.Args[2], b)
+					hi := new(big.Int).Set(a.Hi)
+					lo := big.NewInt(0)
+					if !i.empty() && !j.empty() {
+						// at least j.Lo - i.Hi elements go, at most j.Hi - i.Lo
+						least := new(big.Int).Sub(j.Lo, i.Hi)
+						if least.Sign() > 0 {
+							hi = new(big.Int).Sub(a.Hi, least)
+						}
+						most := new(big.Int).Sub(j.Hi, i.Lo)
+						if l := new(big.Int).Sub(a.Lo, most); l.Sign() > 0 {
+							lo = l
+						}
+					}
+					return Itv{lo, hi}.meet(nonneg)
+				}
 			}
 			if fnInModule(callee) && callee.Blocks != nil {
 				if r := ia.retLenItv(callee, 0); !r.empty() {
